@@ -8,8 +8,8 @@
 //! fresh processes (ASLR, shifted heap).
 
 use crate::framework::{Check, Failure, RunReport, Tier};
-use crate::host::{Driver, GcSched, Host, Outcome, Run, RunSpec, new_interp, run_solo};
-use crate::proggen::{GenCfg, HoleVariant};
+use crate::host::{Driver, GcSched, Host, Outcome, Run, RunSpec, new_interp};
+use crate::proggen::{GenCfg, HoleVariant, Node};
 use crate::progscn::ProgCase;
 use crate::rng::{Rng, Tape, hash_str};
 use serde::{Deserialize, Serialize};
@@ -31,6 +31,10 @@ pub struct Inst {
     pub driver: Driver,
     pub clock_start: i64,
     pub random_seed: u64,
+    /// a second program run on the same interpreter after the first one finished (new code is
+    /// compiled while other instances have come and gone)
+    #[serde(default)]
+    pub followup: Option<ProgCase>,
 }
 
 #[derive(Clone, Debug, Serialize, Deserialize)]
@@ -56,12 +60,13 @@ pub struct C12;
 
 pub fn full_trace(o: &Outcome) -> String {
     format!(
-        "{}\n#console\n{}\n#traffic\n{}\n#steps {}\n#exports {:?}",
+        "{}\n#console\n{}\n#traffic\n{}\n#steps {}\n#exports {:?}\n#export-order {:?}",
         o.result,
         o.console.join("\n"),
         o.traffic.join("\n"),
         o.steps,
-        o.exports
+        o.exports,
+        o.export_order
     )
 }
 
@@ -70,6 +75,73 @@ fn spec_of(i: &Inst, fuel: u64) -> RunSpec {
     s.clock_start = i.clock_start;
     s.random_seed = i.random_seed;
     s
+}
+
+fn specs_of(i: &Inst, fuel: u64) -> Vec<RunSpec> {
+    let mut v = vec![spec_of(i, fuel)];
+    if let Some(f) = &i.followup {
+        let mut s = f.spec(i.driver, i.gc.clone(), i.tape.clone(), fuel);
+        s.clock_start = i.clock_start;
+        s.random_seed = i.random_seed;
+        v.push(s);
+    }
+    v
+}
+
+/// One instance's work: its programs one after the other on the same interpreter; the trace is
+/// the concatenation of the per-program traces.
+pub struct Phased {
+    specs: Vec<RunSpec>,
+    cur: usize,
+    run: Run,
+    traces: Vec<String>,
+}
+
+impl Phased {
+    pub fn new(specs: Vec<RunSpec>) -> Phased {
+        let first = specs.first().cloned().unwrap_or_else(|| unreachable_spec());
+        Phased { specs, cur: 0, run: Run::new(first), traces: Vec::new() }
+    }
+    /// One action; false once the last program has finished (its outcome is finalised then).
+    pub fn advance(&mut self, h: &mut Host) -> bool {
+        if self.cur >= self.specs.len() {
+            return false;
+        }
+        if self.run.advance(h) {
+            return true;
+        }
+        self.run.finalize(h);
+        self.traces.push(full_trace(&self.run.out));
+        self.cur += 1;
+        if let Some(next) = self.specs.get(self.cur) {
+            self.run = Run::new(next.clone());
+            true
+        } else {
+            false
+        }
+    }
+    pub fn instructions(&self) -> u64 {
+        self.run.out.counters.instructions
+    }
+    pub fn trace(&self) -> String {
+        self.traces.join("\n#followup\n")
+    }
+}
+
+fn unreachable_spec() -> RunSpec {
+    ProgCase { tree: Node::leaf("0"), answers: Default::default(), variant: HoleVariant::Sync, module_path: None, modules: Default::default(), tags: Vec::new() }
+        .spec(Driver::Step, GcSched::off(), Tape::from_vec(vec![]), 1000)
+}
+
+fn solo_trace(i: &Inst, fuel: u64) -> (String, u64) {
+    tsrun::verif::reset();
+    tsrun::verif::set_fuel(Some(fuel * 2));
+    let mut h = new_interp(i.clock_start, i.random_seed);
+    let mut p = Phased::new(specs_of(i, fuel));
+    while p.advance(&mut h) {}
+    let instr = tsrun::verif::instructions();
+    tsrun::verif::set_fuel(None);
+    (p.trace(), instr)
 }
 
 pub fn gen_instance(rng: &mut Rng, prefix: &str) -> Inst {
@@ -86,9 +158,39 @@ pub fn gen_instance(rng: &mut Rng, prefix: &str) -> Inst {
         HoleVariant::OrderDirect
     };
     let mut case = ProgCase::generate(rng, cfg, variant, prefix);
-    if rng.chance(0.3) {
+    if rng.chance(0.4) {
         case.module_path = Some(format!("/m/{}.ts", prefix));
+        // a module with 2..6 exports (their enumeration order is part of the trace) ...
+        let n_exp = 2 + rng.below(5);
+        let mut ex = String::new();
+        for e in 0..n_exp {
+            ex.push_str(&format!("export const {}x{}: number = {};\n", prefix, (e * 5) % 7, e));
+        }
+        if rng.chance(0.5) {
+            ex.push_str("export default 3;\n");
+        }
+        let at = 3.min(case.tree.kids.len());
+        case.tree.kids.insert(at, Node::leaf(ex));
+        if rng.chance(0.6) {
+            // ... that imports two host-provided modules (compiled when the host delivers them,
+            // possibly after other instances were created or dropped) and logs their key order
+            case.modules.insert("/lib/a.ts".to_string(), "import * as nb from \"./b.ts\"; console.log(\"run a\", Object.keys(nb).join(\",\")); export const a1: number = nb.b2 + 1; export default String(a1); export const a0: string = typeof Number + typeof String;".to_string());
+            case.modules.insert("/lib/b.ts".to_string(), "console.log(\"run b\"); export const b2: number = 41; export const b1: string = \"x\"; export function b3(): number { return Number(\"3\"); }".to_string());
+            if let Some(first) = case.tree.kids.first_mut() {
+                first.pre = format!("import * as __na from \"/lib/a.ts\";\n{}", first.pre);
+            }
+            let at = 3.min(case.tree.kids.len());
+            case.tree.kids.insert(at, Node::leaf("__log.push(\"ns:\" + Object.keys(__na).join(\",\") + \":\" + __na.a0);"));
+        }
     }
+    let followup = if rng.chance(0.45) {
+        let mut fcfg = GenCfg::swarm(rng, 0);
+        fcfg.size = 3 + rng.below(8);
+        fcfg.f_timeish = true;
+        Some(ProgCase::generate(rng, fcfg, HoleVariant::Sync, &format!("{}f", prefix)))
+    } else {
+        None
+    };
     // per-instance collector schedules only (thresholds and host-forced collects): the injection
     // seam is per thread and would couple instances through the shared allocation index
     let gc = match rng.below(4) {
@@ -104,6 +206,7 @@ pub fn gen_instance(rng: &mut Rng, prefix: &str) -> Inst {
         driver: if rng.chance(0.8) { Driver::Step } else { Driver::Eval },
         clock_start: 1_600_000_000_000 + rng.below(1_000_000) as i64,
         random_seed: rng.next_u64(),
+        followup,
     }
 }
 
@@ -165,6 +268,16 @@ impl Check for C12 {
                 v[i].gc = GcSched::off();
                 out.push(Scn { instances: v, ..scn.clone() });
             }
+            if let Some(f) = &inst.followup {
+                let mut v = scn.instances.clone();
+                v[i].followup = None;
+                out.push(Scn { instances: v, ..scn.clone() });
+                for c in f.shrink_tree() {
+                    let mut v = scn.instances.clone();
+                    v[i].followup = Some(c);
+                    out.push(Scn { instances: v, ..scn.clone() });
+                }
+            }
             for c in inst.case.shrink_tree() {
                 let mut v = scn.instances.clone();
                 v[i].case = c;
@@ -206,12 +319,12 @@ impl Check for C12 {
             .instances
             .iter()
             .map(|i| {
-                let o = run_solo(&spec_of(i, scn.fuel));
-                rep.sim_instructions += o.counters.instructions;
-                full_trace(&o)
+                let (t, instr) = solo_trace(i, scn.fuel);
+                rep.sim_instructions += instr;
+                t
             })
             .collect();
-        let skip = solos.iter().any(|t| t.starts_with("fuel"));
+        let skip = solos.iter().any(|t| t.starts_with("fuel") || t.contains("#followup\nfuel"));
         if skip {
             rep.bump("skipped_fuel", 1);
             rep.trace_hash = hash_str(&solos.join("|"));
@@ -219,13 +332,13 @@ impl Check for C12 {
         }
         // 2. perturbed
         tsrun::verif::reset();
-        tsrun::verif::set_fuel(Some(scn.fuel * scn.instances.len() as u64));
+        tsrun::verif::set_fuel(Some(scn.fuel * 2 * scn.instances.len() as u64));
         let mut switches = 0u64;
         let traces: Vec<String> = match scn.mode {
             Mode::Interleave => {
                 let k = scn.instances.len();
                 let mut hosts: Vec<Option<Host>> = (0..k).map(|_| None).collect();
-                let mut runs: Vec<Option<Run>> = (0..k).map(|_| None).collect();
+                let mut runs: Vec<Option<Phased>> = (0..k).map(|_| None).collect();
                 let mut done: Vec<Option<String>> = (0..k).map(|_| None).collect();
                 let mut tape = scn.sched.clone();
                 let mut last = usize::MAX;
@@ -245,7 +358,7 @@ impl Check for C12 {
                     if hosts[i].is_none() {
                         let inst = &scn.instances[i];
                         hosts[i] = Some(new_interp(inst.clock_start, inst.random_seed));
-                        runs[i] = Some(Run::new(spec_of(inst, scn.fuel)));
+                        runs[i] = Some(Phased::new(specs_of(inst, scn.fuel)));
                         rep.bump("instance_created_while_others_run", (alive.len() < k || last != usize::MAX) as u64);
                     }
                     // a burst of 1..8 actions on the chosen instance
@@ -279,9 +392,8 @@ impl Check for C12 {
                         }
                     }
                     if finished {
-                        let (Some(h), Some(r)) = (hosts[i].as_mut(), runs[i].as_mut()) else { continue };
-                        r.finalize(h);
-                        done[i] = Some(full_trace(&r.out));
+                        let Some(r) = runs[i].as_ref() else { continue };
+                        done[i] = Some(r.trace());
                         // drop the finished instance now or keep it around until the end
                         if tape.next(2) == 0 {
                             runs[i] = None;
@@ -296,10 +408,9 @@ impl Check for C12 {
                 let mut out = Vec::new();
                 for inst in &scn.instances {
                     let mut h = new_interp(inst.clock_start, inst.random_seed);
-                    let mut r = Run::new(spec_of(inst, scn.fuel));
+                    let mut r = Phased::new(specs_of(inst, scn.fuel));
                     while r.advance(&mut h) {}
-                    r.finalize(&mut h);
-                    out.push(full_trace(&r.out));
+                    out.push(r.trace());
                     switches += 1;
                     rep.bump("prior_lifetime", 1);
                     drop(r);
@@ -317,23 +428,22 @@ impl Check for C12 {
                         let (tx, rx) = mpsc::channel::<Cmd>();
                         cmd_txs.push(tx);
                         let done_tx = done_tx.clone();
-                        let spec = spec_of(inst, scn.fuel);
+                        let specs = specs_of(inst, scn.fuel);
                         let (cs, rs) = (inst.clock_start, inst.random_seed);
                         let fuel = scn.fuel;
                         sc.spawn(move || {
                             // Interpreter is !Send: built and owned by its thread
                             tsrun::verif::reset();
-                            tsrun::verif::set_fuel(Some(fuel));
+                            tsrun::verif::set_fuel(Some(fuel * 2));
                             let mut h = new_interp(cs, rs);
-                            let mut r = Run::new(spec);
+                            let mut r = Phased::new(specs);
                             let mut fin = false;
                             while let Ok(cmd) = rx.recv() {
                                 match cmd {
                                     Cmd::Advance => {
                                         if !fin && !r.advance(&mut h) {
                                             fin = true;
-                                            r.finalize(&mut h);
-                                            let _ = done_tx.send((i, true, Some(full_trace(&r.out))));
+                                            let _ = done_tx.send((i, true, Some(r.trace())));
                                         } else {
                                             let _ = done_tx.send((i, fin, None));
                                         }
@@ -416,7 +526,7 @@ pub fn worker(seed: u64, n: usize, start: usize) {
     for i in start..start + n {
         let mut r = Rng::new(crate::rng::derive(seed, sid, i as u64));
         let inst = gen_instance(&mut r, "v");
-        let o = run_solo(&spec_of(&inst, 500_000));
-        println!("{} {:016x}", i, hash_str(&full_trace(&o)));
+        let (t, _) = solo_trace(&inst, 500_000);
+        println!("{} {:016x}", i, hash_str(&t));
     }
 }
